@@ -163,6 +163,8 @@ def main(chk, replay=None):
             chk.violation('C07/%s/%s/%s' % (m['op'], kinds, rejects[i].replace('C07.', '')), m, {'verdict': rejects[i]}, r,
                           direction='trace')
 
+    from harness import session
+    session.run(chk, 'C07')          # spec/Session.tla: the property inside whole analysis sessions
 
 if __name__ == '__main__':
     run_driver('C07', main)
